@@ -7,7 +7,7 @@ from __future__ import annotations
 
 import ufl
 import ufl.classes as C
-from ufl import as_matrix, as_tensor, as_vector, conditional, grad, lt, sqrt, variable
+from ufl import as_matrix, as_tensor, as_vector, conditional, grad, gt, lt, sqrt, variable
 from ufl.core.multiindex import FixedIndex, Index, MultiIndex
 
 from ufv import elements as E
@@ -66,6 +66,11 @@ def closed(t=None):
     add("nested variable component", wn[0] + wn[1] * f)
     add("variable under ct", as_tensor(w[i] * f, (i,))[1] * w[0])
     add("conditional of sums", conditional(lt(f, g), u[i] * v[i], f))
+    # tensor-valued conditionals (the condition is scalar, the branches are not), indexed: literals, zeros and divisions in the condition
+    add("vector conditional with a literal in the condition", conditional(lt(u[0], 0.5), u, v)[i] * v[i])
+    add("matrix conditional with a division in the condition", conditional(lt(f / 2, A[0, 1]), A, B)[i, j] * B[j, i])
+    add("vector conditional with a zero in the condition", conditional(gt(f * g, C.Zero()), u, 2 * v)[i] * u[i])
+    add("nested tensor conditionals", conditional(lt(f, 1), conditional(gt(g, 0.25), A, B), 2 * B)[i, j] * A[i, j])
     add("list tensor vec", as_vector([f, g])[i] * u[i])
     add("list tensor mat", as_matrix([[f, g], [g, f * g]])[i, j] * A[i, j])
     add("list of rows indexed", as_tensor([A[0, :], A[1, :]])[i, j] * B[i, j])
